@@ -27,6 +27,8 @@ CHECKS = {
             "hash injectivity; reachable sets come from the harness's independent decoders"),
     "C15": (MC, "7.C15", "TLC enumeration of every ordered pair on MastDiff.tla with load accounting (ReadBound, SameNoLoads) + distinct Load calls of recorded diffs of reloaded versions (small and large trees) checked by TLC against 2*D+2",
             "distinct node names are counted, no cache attached; D of large pairs is computed by the harness"),
+    "C10": (MC, "7.C10", "TLC exhaustive run of MastCursor.tla (tree x start x every Forward/Backward sequence: Agrees, NoFailure; SeekOK for every probe of every layer) + TLC validation of recorded cursor walks and SeekIter runs against the sorted sequence (TraceCursor.tla)",
+            "off-end is absorbing; the sorted sequence comes from the driver's bookkeeping"),
 }
 
 NOT_YET = {
